@@ -86,7 +86,7 @@ def _intrinsic_guarded(ctx: Ctx, fn: FuncInfo, node: ast.AST) -> bool:
                 return True
         cur = par
     # a guard clause above the site: `if name != "_offset_": raise / return ...`
-    line = getattr(node, "lineno", 0)
+    line = getattr(node, "lineno", 0) or min((getattr(x, "lineno", 0) for x in ast.walk(node) if getattr(x, "lineno", 0)), default=0)  # ast.comprehension carries no position
     for st in ast.walk(fn.node):
         if isinstance(st, ast.If) and st.lineno < line and st.body and isinstance(st.body[-1], (ast.Raise, ast.Return, ast.Continue)) and not st.orelse and verdict(st.test) is False:
             return True
@@ -292,6 +292,132 @@ def rule_r5(ctx: Ctx) -> None:
     ctx.check(True, "_serializable/*", "n-ary concatenate calls: %d" % n, "scan completed", "", nontrivial=False)
 
 
+DIVISOR_TAKERS = {"is_aligned_at": 0, "modulo": 0, "pad_to_alignment": 0, "__mod__": 0}
+MAX_CONSTANT_DIVISOR = 4096
+
+
+def rule_r6(ctx: Ctx, g: CallGraph) -> None:
+    """`no bit length set larger than the queried divisor is ever enumerated` bounds the cost only while the divisors themselves
+    are small constants: a residue query whose divisor is derived from a set's own bounds, a capacity or an extent enumerates
+    (and, in the repetition operators, combines) up to that many residues"""
+    from ..callgraph import Types
+    from ..fold import Folder, Unfoldable
+
+    repo = ctx.repo
+    ctx.rule("C16.R6", "every divisor / alignment handed to a residue query (%, is_aligned_at, modulo, pad_to_alignment) outside the expansion paths is a small constant, an alignment_requirement, or a parameter whose every call site passes one", min_instances=12)
+    T = Types(repo)
+    b = ctx.cls(BLS)
+    slow = set(ALLOW) if isinstance(ALLOW, (set, dict, list, tuple)) else set()
+    fns = {q: fn for q, fn in repo.all_functions().items() if not fn.name.startswith("_unittest")}
+
+    def callers_of(fn: Any) -> List[Any]:
+        out = []
+        for q, sites in g.sites.items():
+            for st in sites:
+                if st.kind == "call" and fn.qualname in st.callees and isinstance(st.node, ast.Call):
+                    out.append((fns.get(q), st.node))
+        return out
+
+    def bounded(fn: Any, e: ast.AST, depth: int, seen: Set[Any]) -> Any:
+        """True / reason why not"""
+        if depth > 4:
+            return "provenance deeper than 4 calls"
+        if isinstance(e, ast.Call) and dotted(e.func) == "int" and len(e.args) == 1:
+            return bounded(fn, e.args[0], depth, seen)
+        if isinstance(e, ast.Attribute) and e.attr == "alignment_requirement":
+            return True  # bounded by C02.R4 (alignments are 1 or 8)
+        if isinstance(e, ast.Call) and (dotted(e.func) or "").split(".")[-1] in ("least_common_multiple", "lcm", "gcd", "max", "min"):
+            rs = [bounded(fn, a, depth, seen) for a in e.args]
+            bad = [r for r in rs if r is not True]
+            return True if not bad else bad[0]
+        try:
+            v = Folder({}, repo, fn.module, fn.cls).fold(e)  # a literal, a module / class constant, arithmetic on those
+            if isinstance(v, int) and not isinstance(v, bool):
+                return True if 1 <= v <= MAX_CONSTANT_DIVISOR else "constant %d is not a small positive divisor" % v
+        except Exception:
+            pass
+        if isinstance(e, ast.Attribute) and isinstance(e.value, ast.Name) and e.value.id == "self" and fn.cls is not None:
+            # an instance field: every store of it (in the class) must be bounded in the storing function
+            stores = []
+            for m in fn.cls.methods.values():
+                for n in ast.walk(m.node):
+                    if isinstance(n, ast.Assign) and any(dotted(t) == "self." + e.attr for t in n.targets):
+                        stores.append((m, n.value))
+            if not stores:
+                return "field %s is never stored in %s" % (e.attr, fn.cls.name)
+            for m, v_ in stores:
+                r = bounded(m, v_, depth + 1, seen)
+                if r is not True:
+                    return r
+            return True
+        if isinstance(e, ast.Name):
+            a = fn.node.args
+            params = [x.arg for x in a.posonlyargs + a.args + a.kwonlyargs]
+            local = [n.value for n in ast.walk(fn.node) if isinstance(n, ast.Assign) and any(isinstance(t, ast.Name) and t.id == e.id for t in n.targets)]
+            if local:
+                rs = [bounded(fn, v_, depth, seen) for v_ in local]
+                bad = [r for r in rs if r is not True]
+                return True if not bad else bad[0]
+            if e.id in params:
+                if (fn.qualname, e.id) in seen:
+                    return True
+                seen = seen | {(fn.qualname, e.id)}
+                if fn.cls is not None and (fn.cls is b or repo.is_subclass(fn.cls, ctx.cls(SYM + ".Operator"))) and fn.name in DIVISOR_TAKERS:
+                    return True  # the public residue queries themselves: their callers are sites of this rule
+                idx = params.index(e.id) - (1 if fn.cls is not None and not fn.is_static else 0)
+                cs = callers_of(fn)
+                if not cs:
+                    return True  # public API parameter: the caller's choice (the property is about what the library asks)
+                for cf, call in cs:
+                    if cf is None or cf.name.startswith("_unittest"):
+                        continue
+                    arg = None
+                    where_fn = cf
+                    if 0 <= idx < len(call.args) and not any(isinstance(x, ast.Starred) for x in call.args):
+                        arg = call.args[idx]
+                    for k in call.keywords:
+                        if k.arg == e.id:
+                            arg = k.value
+                    if arg is None:
+                        arg = dict(zip(reversed([x.arg for x in a.posonlyargs + a.args]), reversed(a.defaults))).get(e.id)
+                        where_fn = fn  # the default is an expression of the callee's module
+                    if arg is None:
+                        return "argument for %s not found at %s" % (e.id, cf.where(call))
+                    r = bounded(where_fn, arg, depth + 1, seen)
+                    if r is not True:
+                        return r
+                return True
+        return "divisor `%s` is not a constant, an alignment or a parameter (it depends on run-time quantities)" % norm(e)[:60]
+
+    n_sites = 0
+    for q, fn in sorted(fns.items()):
+        short = _short(q)
+        if short in slow or fn.name == "validate_numerically" or fn.name == "expand" or fn.name.startswith("_unittest"):
+            continue
+        if fn.cls is not None and repo.is_subclass(fn.cls, ctx.cls(SYM + ".Operator")):
+            continue  # inside the solver the divisor is the query's own parameter or an lcm with it (C01.R5)
+        try:
+            loc = T.locals_of(fn)
+        except Exception:
+            loc = {}
+        for n in ast.walk(fn.node):
+            e = None
+            if isinstance(n, ast.BinOp) and isinstance(n.op, ast.Mod):
+                ty = T.expr(fn, n.left, loc)
+                if ty and b in ty.classes:
+                    e = n.right
+            elif isinstance(n, ast.Call) and isinstance(n.func, ast.Attribute) and n.func.attr in DIVISOR_TAKERS and len(n.args) >= 1:
+                rt = T.expr(fn, n.func.value, loc)
+                if n.func.attr != "modulo" or not rt or b in rt.classes or any(repo.is_subclass(c, ctx.cls(SYM + ".Operator")) for c in rt.classes):
+                    e = n.args[0]
+            if e is None:
+                continue
+            n_sites += 1
+            r = bounded(fn, e, 0, set())
+            ctx.check(r is True, fn.short, "%s: divisor %s" % (norm(n)[:60], norm(e)[:40]), "a residue query's divisor must be a small constant or an alignment: one that grows with the set makes the residue enumeration grow with it", fn.where(n), None if r is True else r)
+    ctx.analysed["C16.R6.sites"] = n_sites
+
+
 def run(ctx: Ctx) -> None:
     g = CallGraph(ctx.repo)
     ctx.analysed["callgraph"] = g.stats()
@@ -302,5 +428,6 @@ def run(ctx: Ctx) -> None:
     ctx.attempt(rule_r3, ctx)
     ctx.attempt(rule_r4, ctx)
     ctx.attempt(rule_r5, ctx)
+    ctx.attempt(rule_r6, ctx, g)
     ctx.assume("kind inference is annotation-seeded; unresolved receivers fall back to by-name dispatch (over-approximation, sound for must-not-reach)")
     ctx.undecided("actual wall-clock and memory; the residue enumeration is exponential in the number of distinct residues but bounded by the divisor, which is what the property states")
